@@ -86,7 +86,7 @@ def parse(out):
             result = l
             continue
         p = l.split(" ", 4)
-        if len(p) < 5 or p[0] not in ("IN", "OUT", "EV", "LIM", "POLL", "EVALDIFF"):
+        if len(p) < 5 or p[0] not in ("IN", "OUT", "EV", "LIM", "POLL", "WAKE", "EVALDIFF"):
             continue
         try:
             recs.append((p[0], int(p[1]), int(p[2]), int(p[3]), p[4]))
